@@ -792,4 +792,23 @@ def chain_programs(cfg, start_id=1):
                         body = [s for s in body if not (s.get("k") == "label" and s["name"] not in used)]
                         out.append({"id": pid, "cfg": cfg, "vars": [{"id": "r1000", "ty": "i"}, {"id": "r1001", "ty": "i"}], "body": body})
                         pid += 1
+                        if tl == 0 and kw == "if":
+                            # the same chain as the body of a loop (a back-edge after it), with a jump from *outside* the
+                            # loop to each label of the chain: the label has a referrer the chain's own block does not contain
+                            T = var(1002)
+                            for entry in (None, "L1", "M", "E"):
+                                if entry is not None and entry not in used:
+                                    continue
+                                pre = [cj("if", S, 3, entry)] if entry else []
+                                chain = [s2 for s2 in body[:-1] if not (s2.get("k") == "label" and s2["name"] == "P")]
+                                inner = (pre + [{"k": "label", "name": "LH"}] + chain
+                                         + [{"k": "assign", "var": T, "op": "+=", "value": ilit(1)},
+                                            {"k": "condjump", "kw": "if", "cond": binop("<", T, ilit(3)), "jump": "goto", "label": "LH"},
+                                            {"k": "label", "name": "P"}, call(100, [])])
+                                labels = {s2["name"] for s2 in inner if s2.get("k") == "label"}
+                                if any(s2.get("label") and s2["label"] not in labels for s2 in inner):
+                                    continue
+                                out.append({"id": pid, "cfg": cfg, "vars": [{"id": "r1000", "ty": "i"}, {"id": "r1001", "ty": "i"}, {"id": "r1002", "ty": "i"}],
+                                            "body": inner})
+                                pid += 1
     return out
